@@ -140,7 +140,7 @@ def proof_obligations(module, extra_targets=("driver",)):
     rc, out = run_translator()
     if rc != 0:
         info["failures"].append("translator: " + out.strip()[-2000:])
-    rc, out, dt = lake_build([module] + list(extra_targets))
+    rc, out, dt = lake_build([module, "driver"] + [t for t in extra_targets if t != "driver"])
     info["lake_build_s"] = round(dt, 1)
     thms = theorems_of(module)
     info["theorems"] = thms
